@@ -838,7 +838,8 @@ class CIMachine(FormatMachine):
                                                         c["id"].endswith("-%s%s.%d" % (c["date"], _long.get(c["type"], "?"), c["respin"]))):
                 return "noop-fields-not-in-id"
             if _re.search(r"\d{8}", exp["release"]["version"] + (exp["base_product"] or {}).get("version", "")):
-                return "noop-version-digits"
+                # the id holds an earlier 8-digit run (a date-like version): the compose date is the LAST one
+                CTX.probe("c05.composeinfo_id_with_two_date_like_runs")
             c.pop("date", None)
             c.pop("respin", None)
             c["type"] = "whatever"
